@@ -14,6 +14,9 @@ fidelity (tr sqrt(sqrt(t) rho sqrt(t)))^2 through eigh-based square roots; KL = 
 sum t ln(t/q) between the rotated Born distributions of target and state; NLL = -mean ln Born_b(s) with each
 sample in its own basis; [0,1], self-fidelity 1, self-KL 0 in every basis, KL >= 0, global-phase invariance;
 type(result) is float (or a numpy floating subclass of float) on every path.
+The basis letters mean what the STATE's unitary dictionary says (states with X / Y overridden: oracle with the state's matrices);
+histories: parameters changed on the same object (fit, `p.data = new`, in-place through `.data`), argument buffers (target tensor,
+dict of rotated targets, samples, sample_bases) overwritten in place between calls; call forms: keyword and documented positional order.
 """
 import itertools, math, time
 import numpy as np
@@ -34,8 +37,8 @@ RULE = ("state type in {positive, complex, mixed} x nv 1..3 (thorough 1..4) x nh
         "per shape in every tier; the history step is a tiny fit, new tensors assigned to the parameters (`p.data = new`) or an in-place edit of the "
         "existing parameter tensors THROUGH `.data` (copy_ / indexed assignment / zero_().add_(): neither storage pointer nor version counter of the "
         "nn.Parameter changes); every second KL(bases=) / NLL(sample_bases=) call passes the bases POSITIONALLY (documented order nn_state, target|samples, "
-        "space, bases|sample_bases); per state two target-buffer histories (ONE target tensor and one dict of pre-rotated tensors whose content is replaced "
-        "in place between two rounds of fidelity / KL calls); complex and mixed states that carry their OWN unitary dictionary (X and/or Y random "
+        "space, bases|sample_bases); per state two argument-buffer histories (ONE target tensor, one dict of pre-rotated tensors, one sample tensor and one "
+        "sample_bases array whose content is replaced in place between two rounds of fidelity / KL / NLL calls); complex and mixed states that carry their OWN unitary dictionary (X and/or Y random "
         "unitaries, Z untouched; numpy oracle with the state's matrices; fixed ones first, then one full draw per type and size); states built through "
         "the constructors' module= form with an RBM of the library; a fixed seed-independent block of all these regimes runs first; a case is (fn, state, shape, parameter draw, call form, target/bases/samples); non-trivial := "
         "non-real target or a basis containing Y or a mixed batch of bases")
@@ -685,12 +688,20 @@ def run_target_history(ctx, case, tab):
              ("KL(target buffer)", "KLnone", lambda: ts.KL(s, buf, tab.space)),
              ("KL(target buffer, bases)", "KL", lambda: ts.KL(s, buf, tab.space, bases=bases)),
              ("KL(dict of pre-rotated target buffers, bases)", "KL", lambda: ts.KL(s, bufd, tab.space, bases=bases))]
+    smp = case.get("samples_rounds")                             # the same for ONE sample tensor and ONE sample_bases array
+    if smp:
+        sbuf = torch.tensor(smp[0], dtype=torch.double)
+        sbb = np.array([list(b) for b in case["sample_bases_rounds"][0]])
+        calls.append(("NLL(sample buffer, sample_bases buffer)", "NLL", lambda: ts.NLL(s, sbuf, tab.space, sample_bases=sbb)))
     for rnd, t in enumerate(contents):
         if rnd > 0:
             buf.copy_(c2t(t))                                   # same tensor objects, new content
             for b in bases:
                 bufd[b].copy_(c2t(rotated(t, b)))
-        want = oracle_values(tab, t, bases, [], [], nv)
+            if smp:
+                sbuf.copy_(torch.tensor(smp[rnd], dtype=torch.double))
+                sbb[...] = np.array([list(b) for b in case["sample_bases_rounds"][rnd]])
+        want = oracle_values(tab, t, bases, smp[rnd] if smp else [], case["sample_bases_rounds"][rnd] if smp else [], nv)
         q0 = tab.born("Z" * nv)
         want["KLnone"] = None
         if float(q0.min()) >= PMIN:
@@ -822,10 +833,13 @@ def _cases_for_state(ctx, base, tab, lite=False):
     keys = rand_bases(ctx, nv, int(rng.integers(1, 4)), force_y=True)
     yield with_target({"fn": "KL", "bases_form": "dict+bases", "dict_keys": keys, "bases": repeated(keys), "repeated_bases": True}, rnd_form)
     # (4) ONE target tensor (and one dict of pre-rotated tensors) whose content is replaced in place between two rounds of calls
-    c = with_target({"fn": "target_history", "bases": rand_bases(ctx, nv, 2, force_y=True), "target2_form": "self",
-                     "swap_order": bool(rng.random() < 0.5)}, rnd_form)
-    yield c
-    c = with_target({"fn": "target_history", "bases": rand_bases(ctx, nv, 2, force_y=True), "target2_form": "other"}, rnd_form)
+    def buffers(c):
+        c["samples_rounds"] = [rand_samples(ctx, nv, 5), rand_samples(ctx, nv, 5)]
+        c["sample_bases_rounds"] = [[str(b) for b in rng.choice(gen.all_bases(nv), size=5)] for _ in range(2)]
+        return c
+    yield buffers(with_target({"fn": "target_history", "bases": rand_bases(ctx, nv, 2, force_y=True), "target2_form": "self",
+                               "swap_order": bool(rng.random() < 0.5)}, rnd_form))
+    c = buffers(with_target({"fn": "target_history", "bases": rand_bases(ctx, nv, 2, force_y=True), "target2_form": "other"}, rnd_form))
     c["target2"] = ser_c(rand_target(ctx, tab, rnd_form))
     yield c
     if lite:
@@ -1085,6 +1099,8 @@ def search(ctx, broken, budget):
         for kind, shs in all_shapes.items():
             for shape in shs:
                 one_state(ctx, kind, shape)
+                if kind != "positive" and len(ctx.failures) == n0:
+                    one_state(ctx, kind, shape, lite=True, udict=True)
                 if len(ctx.failures) > n0:
                     return ctx.failures[n0]
                 if time.time() - t0 > budget:
